@@ -1,2 +1,74 @@
-(* C08 -- parameters.  Statements only (grown as proofs are added). *)
-Require Import Lib.Base Gen.Gen_parser Model.Params.
+(* C08 -- parameters round-trip with correct quoting, list arity, caseless names.  Statements only.
+   A parameter map is an insertion-ordered list of (name, value) with value a string or a list of
+   strings (Model/Params.v).  [wf_params]: names are RFC tokens in ANY letter case, pairwise
+   different after upper-casing; values contain no control characters (DQUOTE is allowed: it
+   comes back as an apostrophe, which is what [canon_params] says).  [canon_params] upper-cases
+   the names and identifies an empty / one-element list with the bare string (identical wire
+   text). *)
+Require Import Lib.Base Lib.Chain Gen.Gen_parser Model.Text Model.Params Model.Fold Model.Contentline.
+Require Import Proofs.ParamsProofs Proofs.ContentlineProofs.
+
+(* Parameters.from_ical(Parameters(ps).to_ical(sorted)) for EVERY well-formed map, both sort flags *)
+Theorem C08_params_rt : forall sorted ps, wf_params ps = true ->
+  params_from_ical (params_to_ical sorted ps) = Ok (canon_params (order_params sorted ps)).
+Proof. exact params_rt. Qed.
+Print Assumptions C08_params_rt.
+
+(* every emitted value that contains , : or ; is inside double quotes and contains no DQUOTE *)
+Theorem C08_params_quoted : forall v,
+  existsb (fun c => (c =? 44) || (c =? 58) || (c =? 59)) (dquote v) = true ->
+  dquote v = 34 :: dq_clean v ++ [34] /\ no_chr 34 (dq_clean v) = true.
+Proof. exact params_quoted. Qed.
+Print Assumptions C08_params_quoted.
+
+(* the quote-aware splitter inverts the quote-aware joiner on every list of rendered values *)
+Theorem C08_q_split_join : forall vs, vs <> [] ->
+  q_split (q_join vs) 44 None = qs_norm (map dquote vs).
+Proof.
+  intros vs Hne. unfold q_join. rewrite q_split_none.
+  apply q_split_join; [discriminate|destruct vs; [congruence|discriminate]|].
+  apply Forall_forall. intros p Hp. apply in_map_iff in Hp. destruct Hp as (v & <- & _).
+  apply dquote_walk; [exact quotable_44|discriminate].
+Qed.
+Print Assumptions C08_q_split_join.
+
+(* the same through a content line, for every property name and EVERY value text, provided the
+   rendered parameter section has no backslash-delimiter pair and no value contains placeholder
+   text (outside this guard: finding C08-F1 / C05-F1) *)
+Theorem C08_params_line_rt : forall name ps sorted v line,
+  is_token name = true -> wf_params ps = true ->
+  head_safe name ps sorted = true -> params_unesc_safe ps = true ->
+  from_parts name ps sorted v = Ok line ->
+  exists v', parts line = Ok (name, canon_params (order_params sorted ps), v').
+Proof.
+  intros name ps sorted v line H1 H2 H3 H4 H5. exists (line_value_path v).
+  exact (parts_from_parts name ps sorted v line H1 H2 H3 H4 H5).
+Qed.
+Print Assumptions C08_params_line_rt.
+
+(* obligations on the generated character classes *)
+Theorem C08_tables :
+  ranges_within UNSAFE_CHAR_ranges (QUNSAFE_CHAR_ranges ++ QUOTABLE_ranges) = true /\
+  forallb (in_ranges QUOTABLE_ranges) [44; 58; 59] = true /\ in_ranges QUNSAFE_CHAR_ranges 34 = true.
+Proof. exact (conj unsafe_within (conj quotable_delims qunsafe_dquote)). Qed.
+
+(* outside the line guard: a value ending in a backslash is not read back (known finding C08-F1) *)
+Theorem C08_line_refuted : exists name ps v line,
+  is_token name = true /\ wf_params ps = true /\ from_parts name ps true v = Ok line /\
+  parts line <> Ok (name, canon_params ps, v).
+Proof.
+  exists (s2l "ATTENDEE"), [(s2l "CN", PStr [97; 92])], (s2l "x"). eexists.
+  split; [reflexivity|]. split; [reflexivity|]. split; [reflexivity|]. vm_compute. discriminate.
+Qed.
+
+(* non-vacuity (the implementation stores names upper-cased, see C17; the model sorts the names as
+   given, so the lower-case "cn" is rendered last here): a map with mixed-case names, quoted and unquoted values, a list, an empty value,
+   a DQUOTE, a backslash and a percent sign inside the guards *)
+Example C08_nonvacuous :
+  let ps := [(s2l "cn", PStr (s2l "Doe, John")); (s2l "X-a.b", PList [s2l "a;b"; s2l "c:d"; []]);
+             (s2l "ROLE", PStr []); (s2l "Q", PStr [34; 120; 92; 110; 37]) ] in
+  wf_params ps = true /\ head_safe (s2l "ATTENDEE") ps true = true /\ params_unesc_safe ps = true /\
+  params_from_ical (params_to_ical true ps) =
+    Ok [(s2l "Q", PStr [39; 120; 92; 110; 37]); (s2l "ROLE", PStr []);
+        (s2l "X-A.B", PList [s2l "a;b"; s2l "c:d"; []]); (s2l "CN", PStr (s2l "Doe, John"))].
+Proof. vm_compute. repeat split; reflexivity. Qed.
